@@ -1198,9 +1198,12 @@ class ConfigInformation:
         """Sets a dependency on the job"""
         assert not isinstance(config, Task), "Cannot set a dependency on a task"
         config.__xpm__.task = self.pyobject
-        # The task is part of the identifier: drop what was cached before
+        # The task is part of the identifier: drop what was cached before (for
+        # this task too: the marked configuration may be one of its parameters)
         config.__xpm__._raw_identifier = None
         config.__xpm__._full_identifier = None
+        self._raw_identifier = None
+        self._full_identifier = None
         return config
 
     # --- Serialization
